@@ -20,34 +20,44 @@
        syms  set of [n |-> full name (sequence of components), k |-> kind]
        exts  sequence (declaration order) of [e |-> extendee full name, t |-> tag, ep |-> extendee's package]
        deps  sequence of file ids (imports, in order)
-   Table:  [pkgs |-> name :> file that registered it, syms |-> name :> [f, k],
+   Table:  [pkgs |-> set of registered package names, syms |-> name :> [f, k],
             exts |-> <<extendee, tag>> :> file, files |-> set of imported file ids]            *)
-EXTENDS Naturals, Sequences, FiniteSets, TLC
+EXTENDS Naturals, Sequences, FiniteSets, TLC, SymbolsUniverse
 
-CONSTANTS FD,        \* file id -> abstract file
-          Variant    \* "orig": order of steps at the pinned commit;  "fixed": with the extension pre-check
+(* file id -> abstract file.  A definition, not a CONSTANT: TLC re-evaluates substituted constants at
+   every use, and caches constant-level definitions. *)
+FD == UFD
+
+CONSTANTS Variant    \* "orig": order of steps at the pinned commit;  "fixed": with the extension pre-check
 
 FileIds == DOMAIN FD
 
-EmptyFn == [x \in {} |-> x]
-EmptyTable == [pkgs |-> EmptyFn, syms |-> EmptyFn, exts |-> EmptyFn, files |-> {}]
+EmptyFn == <<>>
+EmptyTable == [pkgs |-> {}, syms |-> EmptyFn, exts |-> EmptyFn, files |-> {}]
 
 Prefixes(p) == {SubSeq(p, 1, i) : i \in 1..Len(p)}
-SymNames(f) == {s.n : s \in FD[f].syms}
+
+(* per-file constants (constant-level definitions: TLC evaluates them once) *)
+FSyms    == TLCEval([f \in FileIds |-> {s.n : s \in FD[f].syms}])
+FSymFn   == TLCEval([f \in FileIds |-> [n \in FSyms[f] |-> [f |-> f, k |-> (CHOOSE s \in FD[f].syms : s.n = n).k]]])
 ExtKey(x) == <<x.e, x.t>>
-ExtKeys(f) == {ExtKey(FD[f].exts[i]) : i \in 1..Len(FD[f].exts)}
+FExtKeys == TLCEval([f \in FileIds |-> {ExtKey(FD[f].exts[i]) : i \in 1..Len(FD[f].exts)}])
+FExtFn   == TLCEval([f \in FileIds |-> [k \in FExtKeys[f] |-> f]])
+FPref    == TLCEval([f \in FileIds |-> Prefixes(FD[f].pkg)])
+SymNames(f) == FSyms[f]
+ExtKeys(f) == FExtKeys[f]
 
 -----------------------------------------------------------------------------
 (* (1) Reference semantics -- from the statement.                                          *)
 
 (* Every name the table answers for: committed symbols and registered packages. *)
-Taken(T) == DOMAIN T.syms \cup DOMAIN T.pkgs
+Taken(T) == DOMAIN T.syms \cup T.pkgs
 
 (* Would f's own content collide with table T?  name collision (symbol vs symbol, symbol vs
    package), package-vs-symbol collision (a prefix of f's package is a non-package symbol),
    extension-number collision.  *)
 NameCollision(T, f) == \E n \in SymNames(f) : n \in Taken(T)
-PkgCollision(T, f)  == \E p \in Prefixes(FD[f].pkg) : p \in DOMAIN T.syms
+PkgCollision(T, f)  == \E p \in FPref[f] : p \in DOMAIN T.syms
 ExtCollision(T, f)  == \E k \in ExtKeys(f) : k \in DOMAIN T.exts
 Collides(T, f) == NameCollision(T, f) \/ PkgCollision(T, f) \/ ExtCollision(T, f)
 
@@ -57,13 +67,10 @@ CollisionKinds(T, f) ==
   (IF ExtCollision(T, f) THEN {"extension"} ELSE {})
 
 Commit(T, f) ==
-  LET newp == Prefixes(FD[f].pkg) \ DOMAIN T.pkgs
-  IN [pkgs  |-> [p \in DOMAIN T.pkgs \cup newp |-> IF p \in DOMAIN T.pkgs THEN T.pkgs[p] ELSE f],
-      syms  |-> [n \in DOMAIN T.syms \cup SymNames(f) |->
-                   IF n \in DOMAIN T.syms THEN T.syms[n]
-                   ELSE [f |-> f, k |-> (CHOOSE s \in FD[f].syms : s.n = n).k]],
-      exts  |-> [k \in DOMAIN T.exts \cup ExtKeys(f) |-> IF k \in DOMAIN T.exts THEN T.exts[k] ELSE f],
-      files |-> T.files \cup {f}]
+  [pkgs  |-> T.pkgs \cup FPref[f],
+   syms  |-> T.syms @@ FSymFn[f],      \* (never overlapping here; @@ keeps the left value)
+   exts  |-> T.exts @@ FExtFn[f],
+   files |-> T.files \cup {f}]
 
 (* Import(f): nothing if already imported; the imports of f are imported first (each is an Import
    of its own, atomic on its own); then f is added atomically or not at all.  *)
@@ -191,18 +198,18 @@ StepP(T, P) ==
   IN
   CASE fr.pc = "pkgR" ->
          LET n == SubSeq(FD[f].pkg, 1, fr.i) IN
-         IF n \in DOMAIN T.pkgs
+         IF n \in T.pkgs
          THEN [t |-> T, p |-> Goto(P, NextPkgFrame(f, fr.i)), lab |-> Lab("pkgR", f, n, 0, "pkg", NoAdd)]
          ELSE IF n \in DOMAIN T.syms
          THEN [t |-> T, p |-> FailP(P), lab |-> Lab("pkgR", f, n, 0, "sym", NoAdd)]
          ELSE [t |-> T, p |-> Goto(P, Frame(f, "pkgW", fr.i)), lab |-> Lab("pkgR", f, n, 0, "none", NoAdd)]
     [] fr.pc = "pkgW" ->
          LET n == SubSeq(FD[f].pkg, 1, fr.i) IN
-         IF n \in DOMAIN T.pkgs
+         IF n \in T.pkgs
          THEN [t |-> T, p |-> Goto(P, NextPkgFrame(f, fr.i)), lab |-> Lab("pkgW", f, n, 0, "pkg", NoAdd)]
          ELSE IF n \in DOMAIN T.syms
          THEN [t |-> T, p |-> FailP(P), lab |-> Lab("pkgW", f, n, 0, "sym", NoAdd)]
-         ELSE [t |-> [T EXCEPT !.pkgs = [q \in DOMAIN T.pkgs \cup {n} |-> IF q = n THEN f ELSE T.pkgs[q]]],
+         ELSE [t |-> [T EXCEPT !.pkgs = T.pkgs \cup {n}],
                p |-> Goto(P, NextPkgFrame(f, fr.i)),
                lab |-> Lab("pkgW", f, n, 0, "none", [NoAdd EXCEPT !.pk = {n}])]
     [] fr.pc = "already" ->
@@ -219,27 +226,24 @@ StepP(T, P) ==
     [] fr.pc = "commit" ->
          IF f \in T.files
          THEN [t |-> T, p |-> Goto(P, Frame(f, "ret", 0)), lab |-> Lab("commit", f, <<>>, 0, "dup", NoAdd)]
-         ELSE IF \E n \in SymNames(f) : n \in DOMAIN T.syms \/ n \in DOMAIN T.pkgs
+         ELSE IF \E n \in SymNames(f) : n \in DOMAIN T.syms \/ n \in T.pkgs
          THEN [t |-> T, p |-> FailP(P), lab |-> Lab("commit", f, <<>>, 0, "fail", NoAdd)]
-         ELSE [t |-> [T EXCEPT !.syms = [n \in DOMAIN T.syms \cup SymNames(f) |->
-                                           IF n \in DOMAIN T.syms THEN T.syms[n]
-                                           ELSE [f |-> f, k |-> (CHOOSE s \in FD[f].syms : s.n = n).k]],
-                               !.files = T.files \cup {f}],
+         ELSE [t |-> [T EXCEPT !.syms = T.syms @@ FSymFn[f], !.files = T.files \cup {f}],
                p |-> Goto(P, IF NExt(f) > 0 THEN Frame(f, "ext", 1) ELSE Frame(f, "ret", 0)),
                lab |-> Lab("commit", f, <<>>, 0, "ok", [NoAdd EXCEPT !.sy = SymNames(f)])]
     [] fr.pc = "ext" ->
          LET x == FD[f].exts[fr.i] IN
          IF ExtKey(x) \in DOMAIN T.exts
          THEN [t |-> T, p |-> FailP(P), lab |-> Lab("addExt", f, x.e, x.t, "dup", NoAdd)]
-         ELSE [t |-> [T EXCEPT !.exts = [k \in DOMAIN T.exts \cup {ExtKey(x)} |->
-                                           IF k = ExtKey(x) THEN f ELSE T.exts[k]]],
+         ELSE [t |-> [T EXCEPT !.exts = T.exts @@ (ExtKey(x) :> f)],
                p |-> Goto(P, IF fr.i < NExt(f) THEN Frame(f, "ext", fr.i + 1) ELSE Frame(f, "ret", 0)),
                lab |-> Lab("addExt", f, x.e, x.t, "ok", [NoAdd EXCEPT !.ex = {ExtKey(x)}])]
 
 (* Lookup / LookupExtension: one read each. The answer is the file whose declaration is recorded,
-   "" for nil.  *)
-LookupRes(T, n) == IF n \in DOMAIN T.syms THEN T.syms[n].f
-                   ELSE IF n \in DOMAIN T.pkgs THEN T.pkgs[n] ELSE ""
+   "" for nil.  Lookup answers for the symbols files declare; a package name is not such a symbol
+   (the property speaks of "the failed file's symbols"), a registered package is observable only through
+   the collisions it causes.  *)
+LookupRes(T, n) == IF n \in DOMAIN T.syms THEN T.syms[n].f ELSE ""
 LookupExtRes(T, e, t) == IF <<e, t>> \in DOMAIN T.exts THEN T.exts[<<e, t>>] ELSE ""
 
 (* Run one process alone to completion (sequential use of the table). *)
